@@ -63,6 +63,14 @@ def base_scenarios(rng, n):
         if rng.random() < .3:
             op['init'] = op['exit'] = True
         out.append({'seed': rng.randint(0, 10 ** 6), 'pool': pool, 'ops': [op]})
+    # a lazy call that the consumer closes early (the pool shuts its workers down inside the generator's clean-up), and a call whose
+    # progress bar is the first thing in the process that needs the bar's manager
+    out.append({'seed': rng.randint(0, 10 ** 6), 'pool': {'n_jobs': rng.choice([2, 3]), 'start_method': 'fork'},
+                'ops': [{'op': rng.choice(['imap', 'imap_unordered']), 'n': rng.randint(6, 10), 'chunk_size': 1, 'consume': rng.randint(1, 2), 'abandon': 'close',
+                         'dur': {'kind': 'hash', 'salt': rng.randint(0, 99), 'unit': 0.01}}]})
+    out.append({'seed': rng.randint(0, 10 ** 6), 'pool': {'n_jobs': rng.choice([1, 2]), 'start_method': rng.choice(['fork', 'threading'])},
+                'ops': [{'op': rng.choice(['map', 'imap_unordered']), 'n': rng.randint(2, 6), 'chunk_size': 1, 'progress_bar': True,
+                         'dur': {'kind': 'hash', 'salt': rng.randint(0, 99), 'unit': 0.01}}]})
     # threads cannot be interrupted: a worker thread notices the interrupt before it starts its next task, also in the middle of a
     # long chunk — the KeyboardInterrupt reaches the caller within about one task duration, not one chunk duration
     out.append({'seed': rng.randint(0, 10 ** 6), 'pool': {'n_jobs': 2, 'start_method': 'threading'}, 'latency_bound': 1.0,
